@@ -479,6 +479,27 @@ func runC06(c *Ctx) {
 	c.Floor("O8", "DOM common-prefix scans in the min-runtime resolver", nscan, 1)
 
 	// ---- O6: consolidation accepts only scenarios in which no victim stays evicted
+	// ---- O10: the two protection caches are fed only by their own verdict (a reclaim verdict cached as a preempt
+	// verdict makes a victim that is protected from reclaim only look protected from preemption too, and vice versa)
+	for _, pr := range []struct{ cache, owner string }{
+		{"cachePreemptProtection", "isPreemptMinRuntimeProtected"},
+		{"cacheReclaimProtection", "isReclaimMinRuntimeProtected"},
+	} {
+		cf := c.Anchor("O10", pkgMinRuntime, "minruntimePlugin", pr.cache)
+		if cf == nil {
+			continue
+		}
+		n := 0
+		for _, cs := range p.CallSites(cf) {
+			if isTestdataOrMock(cs.Parent()) {
+				continue
+			}
+			n++
+			c.Check(rootFunc(cs.Parent()).Name() == pr.owner, "O10", "CALLERS", funcKey(cs.Parent())+": writes the "+strings.TrimPrefix(pr.cache, "cache")+" cache", instrPos(cs), "only "+pr.owner, pr.cache+" is called from "+funcKey(cs.Parent())+": the verdict of one kind of protection is stored where the other kind is looked up")
+		}
+		c.Floor("O10", "CALLERS writers of "+pr.cache, n, 1)
+	}
+
 	// ---- O9: the start time that min-runtime protection relies on is not lost while the informer lags: a pending
 	// pod-group update is reported as "equal to the snapshot" (and may therefore be dropped) only when the
 	// snapshot already carries the in-flight last-start and stale timestamps
